@@ -33,14 +33,35 @@ RULE = ("(i) save-load-roundtrip: real Samplers over {clustering, blobs, kernel 
         "(iv) crash-injection: a forked child performs the real save and dies (os._exit) at every operation boundary and at byte "
         "offsets of the pickle (0, 1, len-1, len, write boundaries, spread; thorough: every 4 KiB + first/last 64 bytes), with and "
         "without an old checkpoint; what the parent finds under the final name must be in the model's crash-content set "
-        "{old, new} and must load into a fresh sampler as exactly that state.")
+        "{old, new} and must load into a fresh sampler as exactly that state. "
+        "(v) sm-roundtrip: StateManagers produced by k in 0..7 real sampler iterations (blobs on/off, clustering on/off), final names "
+        "with/without/with several suffixes: `save_state(p)` -> `StateManager(other n_dim).load_state(p)` and "
+        "`StateManager.from_dict(sm.to_dict())` must equal the original in three views (raw `_current/_history/n_dim`, the accessors "
+        "`get_current/get_history(key,i)/get_history_length`, `to_dict()`), dtype+shape+bytes; `load_state` into a NON-fresh manager "
+        "(full file; files written with exclude=[a section]; hand-built partial dictionaries) must be the merge `loaded keys override, "
+        "others stay`, stated as an oracle on dumps AND predicted by the model's updateFromDict/excludeDict/fromDict on tagged values; "
+        "the top-level keys each `exclude=` leaves in the file are recorded (no verdict). Non-trivial = k >= 1. "
+        "(vi) sm-crash-injection: as (iv) on the REAL StateManager.save_state (same interposition: every operation boundary, byte offsets "
+        "inside dill.dump's writes, eager and lazy buffer), with/without an old complete file, with/without a stale temporary; outcome "
+        "(absent / loads as complete OLD / loads as complete NEW / broken) must lie in the crash-content set of the program extracted "
+        "from save_state's source (`fs.smcrash`), the recorded trace must classify as temprename with the extracted shape, and "
+        "the temporary file the code really opens must be the model's temporary name (final name + `.temp`). One campaign uses the final "
+        "name `x.temp`, which the pre-fix naming `with_suffix('.temp')` wrote in place (witness F27): judged like every other name.")
 MODELLED = ["dill round trip: dec (enc d) = some d and dec of a strict prefix fails (trusted; exercised by (i) and (iv))",
             "process-crash granularity only: fsync durability / directory entries under power loss are not modelled",
             "RNG state is not part of a checkpoint (the statement does not require it); n_total / logz_err / random_state metadata "
             "and the pickled sampler object inside the checkpoint are exercised, not modelled",
-            "arrays are opaque tagged values (aliasing of the loaded arrays is C17's subject)"]
+            "arrays are opaque tagged values (aliasing of the loaded arrays is C17's subject)",
+            "StateManager.save_state: temporary name = final name + `.temp` (as the sampler; /repo b1898a0), crash-safety proved for every "
+            "final name from an arbitrary file system; the pre-fix naming `with_suffix('.temp')` is kept as `smSaveOld` (in-place write "
+            "for a final name `*.temp`, C08_state_manager_temp_suffix_in_place) and is what the translator reports as `replace_suffix`",
+            "dropping `os.fsync` or swapping flush/fsync in either save is visible to the classifier (trace no longer `tempRename`) but has "
+            "no crash state in the FS model: durability under power loss is not expressed, only process death",
+            "`Path(path).parent.mkdir(exist_ok=True)` of StateManager.save_state (no parents=True): a missing grand-parent raises "
+            "FileNotFoundError before any file is touched — recorded by the translator flag smMkdirParents, not judged"]
 ASSUMPTIONS = ["the user's prior_transform / log_likelihood are picklable by dill (otherwise save raises before touching any file)",
-               "no second process writes the same checkpoint name concurrently (one fixed temporary name per final name)"]
+               "no second process writes the same checkpoint name concurrently (one fixed temporary name per final name)",
+               "no file the user cares about is called `<final name>.temp` (both saves use and finally remove that name)"]
 TRUSTED_EXTRA = ["translate/g7_checkpoint.py (AST extraction of the save/load/cadence shapes), cross-checked against the recorded trace"]
 
 N_PART = 32
@@ -48,7 +69,7 @@ N_PART = 32
 
 def translators():
     from translate import g7_checkpoint, g5_tables
-    return [g7_checkpoint.generate(), g5_tables.generate()]
+    return [g7_checkpoint.generate(), g7_checkpoint.generate_sm(), g5_tables.generate()]
 
 
 def _quiet():
@@ -826,7 +847,8 @@ def _clear_dir(d):
 
 
 def crash_one(s, final, point, eager):
-    """fork; the child saves with the crashing file layer; returns the child's exit code"""
+    """fork; the child saves (`s.save_state(final)`: a Sampler or a StateManager) with the crashing file layer;
+    returns the child's exit code"""
     root = os.path.dirname(final)
     sys.stdout.flush()
     sys.stderr.flush()
@@ -848,17 +870,21 @@ def crash_one(s, final, point, eager):
     return os.waitstatus_to_exitcode(status)
 
 
-def classify_outcome(cfg, final, old_bytes, old_dump, new_dump):
-    """what the survivor finds under the final name: absent | old | new | broken:<why>"""
+def classify_outcome(cfg, final, old_bytes, old_dump, new_dump, loader=None):
+    """what the survivor finds under the final name: absent | old | new | broken:<why>
+    (`loader(final) -> dump` replaces the default: a fresh Sampler's load_state)"""
     if not os.path.exists(final):
         return "absent", None
     data = open(final, "rb").read()
     try:
         with _quiet(), warnings.catch_warnings():
             warnings.simplefilter("ignore")
-            s2 = mk_sampler(cfg)
-            s2.load_state(final)
-        d = dump_state(s2.state)
+            if loader is not None:
+                d = loader(final)
+            else:
+                s2 = mk_sampler(cfg)
+                s2.load_state(final)
+                d = dump_state(s2.state)
     except Exception as e:  # noqa
         return "broken", f"{len(data)} bytes under the final name; load_state raised {type(e).__name__}: {str(e)[:80]}"
     if old_bytes is not None and data == old_bytes and _same_dump(d, old_dump):
@@ -961,10 +987,340 @@ def suite_crash(tier, drv):
     return c
 
 
+
+# ----------------------------------------------------------------------------- (v)/(vi) the StateManager's own save_state / load_state / from_dict
+SM_NAMES = ["a.state", "noext", "a.b.pkl", ".hidden", "ck.v2.state"]     # suffix replaced / appended by with_suffix(".temp")
+SM_CFGS = [dict(clustering=c, blobs=b, kernel=k, pool=False) for b in (False, True) for c, k in ((False, "tpcn"), (True, "rwm"))]
+
+
+def pname_args(final):
+    """pathlib's split of the final name, in the driver's syntax (symbolic directory `d/`)"""
+    from pathlib import Path
+    p = Path(final)
+    return f"dir=d/ stem={p.stem} suffix={p.suffix or '-'}"
+
+
+def dump_accessors(sm):
+    """the same content read only through the public accessors"""
+    cur = sm.get_current()
+    hist = {}
+    for key in sorted(sm._history):
+        vals, i = [], 0
+        while True:
+            try:
+                vals.append(canon(sm.get_history(key, i)))
+            except IndexError:
+                break
+            i += 1
+        hist[key] = vals
+    return {"cur": {k: canon(v) for k, v in cur.items()}, "hist": hist, "ndim": int(sm.n_dim), "len": sm.get_history_length()}
+
+
+def dump_todict(sm):
+    d = sm.to_dict()
+    return {"cur": {k: canon(v) for k, v in d["_current"].items()}, "hist": {k: [canon(v) for v in l] for k, l in d["_history"].items()},
+            "ndim": int(d["n_dim"])}
+
+
+def _views(sm):
+    return {"raw": dump_state(sm), "accessors": dump_accessors(sm), "to_dict": dump_todict(sm)}
+
+
+def _views_diff(a, b):
+    for v in ("raw", "accessors", "to_dict"):
+        if a[v] != b[v]:
+            return f"{v} view: {_first_diff(a[v], b[v]) or 'history length'}"
+    return None
+
+
+def merged_dump(base, loaded_cur, loaded_hist, loaded_ndim):
+    """the documented merge, stated directly on dumps (oracle, independent of the Lean model): loaded keys override, others stay"""
+    out = {"cur": dict(base["cur"]), "hist": {k: list(v) for k, v in base["hist"].items()}, "ndim": base["ndim"]}
+    if loaded_cur is not None:
+        out["cur"].update(loaded_cur)
+    if loaded_hist is not None:
+        out["hist"].update({k: list(v) for k, v in loaded_hist.items()})
+    if loaded_ndim is not None:
+        out["ndim"] = loaded_ndim
+    return out
+
+
+def sm_roundtrip_case(cfg, k, seed, name, rng_seed):
+    """observations of one manager produced by k real sampler iterations (no judgement)"""
+    import random
+    import dill
+    from tempest.state_manager import StateManager
+    rng = random.Random(rng_seed)
+    root = tempfile.mkdtemp(prefix="tv08_")
+    rec = dict(error=None)
+    try:
+        with _quiet(), warnings.catch_warnings():
+            warnings.simplefilter("ignore")
+            sm = _prepared(cfg, k, seed, root).state
+            before = _views(sm)
+            d = os.path.join(root, "sm")
+            os.mkdir(d)
+            p = os.path.join(d, name)
+            sm.save_state(p)
+            rec["sm"] = before
+            rec["unchanged_by_save"] = _views(sm) == before
+            rec["files_after_save"] = sorted(os.listdir(d))
+            rec["top_level_keys"] = sorted(dill.load(open(p, "rb")).keys())
+            # 1. fresh manager (with another n_dim, which the file must override)
+            fresh = StateManager(before["raw"]["ndim"] + 3)
+            fresh.load_state(p)
+            rec["fresh"] = _views(fresh)
+            # 2. from_dict(to_dict())
+            rec["from_dict"] = _views(StateManager.from_dict(sm.to_dict()))
+            rec["from_dict_no_ndim"] = int(StateManager.from_dict({"_current": {"beta": 0.5}}).n_dim)
+            # 3. a NON-fresh manager (other seed, other history length): full file, files written with exclude=[section], partial dictionaries
+            import copy
+            other_sm = _prepared(cfg, (k + 2) % 5 + 1, seed + 1, os.path.join(root, "o")).state
+
+            def other():
+                return copy.deepcopy(other_sm)
+            rec["base"] = dump_state(other())
+            merges = []
+            b = other()
+            b.load_state(p)
+            merges.append(dict(kind="full-file", exclude=None, cur=before["raw"]["cur"], hist=before["raw"]["hist"], ndim=before["raw"]["ndim"],
+                               result=dump_state(b)))
+            for ex in (["_history"], ["_current"], ["n_dim"], ["pbar", "_history", "n_dim"]):
+                pe = os.path.join(d, "ex.state")
+                sm.save_state(pe, exclude=ex)
+                keys = sorted(dill.load(open(pe, "rb")).keys())
+                b = other()
+                b.n_dim = before["raw"]["ndim"] + 5
+                base_d = dump_state(b)
+                b.load_state(pe)
+                merges.append(dict(kind="exclude", exclude=ex, keys=keys, base=base_d, cur=before["raw"]["cur"], hist=before["raw"]["hist"],
+                                   ndim=before["raw"]["ndim"], result=dump_state(b)))
+            td = sm.to_dict()
+            for _ in range(3):
+                ck = [kk for kk in sorted(td["_current"]) if rng.random() < 0.5]
+                hk = [kk for kk in sorted(td["_history"]) if rng.random() < 0.5]
+                part = {}
+                if rng.random() < 0.8:
+                    part["_current"] = {kk: td["_current"][kk] for kk in ck}
+                if rng.random() < 0.8:
+                    part["_history"] = {kk: td["_history"][kk] for kk in hk}
+                if rng.random() < 0.5:
+                    part["n_dim"] = 7
+                pp = os.path.join(d, "part.pkl")
+                with open(pp, "wb") as fh:
+                    dill.dump(part, fh)
+                b = other()
+                b.load_state(pp)
+                merges.append(dict(kind="partial", exclude=None,
+                                   cur=({kk: canon(v) for kk, v in part["_current"].items()} if "_current" in part else None),
+                                   hist=({kk: [canon(v) for v in l] for kk, l in part["_history"].items()} if "_history" in part else None),
+                                   ndim=part.get("n_dim"), result=dump_state(b)))
+            rec["merges"] = merges
+        return rec
+    except Exception as e:  # noqa
+        rec["error"] = f"{type(e).__name__}: {e}"
+        return rec
+    finally:
+        shutil.rmtree(root, ignore_errors=True)
+
+
+def judge_sm_roundtrip(rec, name):
+    """property-level oracle (no Lean model involved) -> message or None"""
+    if rec["error"]:
+        return f"StateManager save_state/load_state/from_dict raised {rec['error']}"
+    if not rec["unchanged_by_save"]:
+        return "save_state changed the manager it saved"
+    if rec["files_after_save"] != [name]:
+        return f"after save_state({name!r}) the directory holds {rec['files_after_save']}"
+    m = _views_diff(rec["sm"], rec["fresh"])
+    if m:
+        return f"save_state -> fresh StateManager.load_state does not restore the manager: {m}"
+    m = _views_diff(rec["sm"], rec["from_dict"])
+    if m:
+        return f"StateManager.from_dict(sm.to_dict()) does not restore the manager: {m}"
+    for mg in rec["merges"]:
+        base = mg.get("base", rec["base"])
+        ex = mg["exclude"] or []
+        want = merged_dump(base, None if "_current" in ex else mg["cur"], None if "_history" in ex else mg["hist"],
+                           None if "n_dim" in ex else mg["ndim"])
+        if not _same_dump(want, mg["result"]):
+            return f"load_state into a non-fresh manager ({mg['kind']}, exclude={mg['exclude']}) is not the documented merge: {_first_diff(want, mg['result'])}"
+    return None
+
+
+def suite_sm_roundtrip(tier, drv):
+    c = Corr("sm-roundtrip", "exact (raw / accessor / to_dict views, dtype+shape+bytes; model merge on tagged values)")
+    rng = common.rng_for("C08.sm-roundtrip")
+    reps = 2 if tier == "quick" else 8
+    lines, checks = ["fs.gen"], []
+    for rep in range(reps):
+        for cfg in SM_CFGS:
+            for k in ([0, rng.choice([1, 2]), rng.choice([3, 5])] if tier == "quick" else [0, 1, 2, 3, 5, 7]):
+                seed, name = rng.randrange(2 ** 31), rng.choice(SM_NAMES)
+                key = dict(cfg=cfg, k=k, seed=seed, name=name, rng_seed=rng.randrange(2 ** 31))
+                rec = sm_roundtrip_case(cfg, k, seed, name, key["rng_seed"])
+                c.case(key, k >= 1)
+                c.count(f"history_length={k}")
+                c.count("blobs=on" if cfg["blobs"] else "blobs=off")
+                msg = judge_sm_roundtrip(rec, name)
+                if msg:
+                    c.disagree(input=key, impl=msg, model="restored bit-for-bit / documented merge", kind="sm-roundtrip", **key)
+                    continue
+                if rec["from_dict_no_ndim"] != 1:
+                    c.disagree(input=key, impl=f"from_dict without n_dim -> n_dim={rec['from_dict_no_ndim']}", model="1", kind="sm-roundtrip", **key)
+                c.count("top-level keys of the file: " + ",".join(rec["top_level_keys"]))
+                # the model's prediction of each load
+                tg = Tagger()
+                sa = tg.state_args(rec["sm"]["raw"])
+                lines.append(f"sm.load bndim={rec['sm']['raw']['ndim'] + 3} {sa} exclude=pbar,pool,distribute")
+                checks.append((key, "fresh", tg, rec["fresh"]["raw"]))
+                lines.append(f"sm.fromdict {sa}")
+                checks.append((key, "from_dict", tg, rec["from_dict"]["raw"]))
+                for mg in rec["merges"]:
+                    base = mg.get("base", rec["base"])
+                    ba = tg.state_args(base).replace("cur=", "bcur=", 1).replace(" hist=", " bhist=", 1).replace(" ndim=", " bndim=", 1)
+                    cs = "absent" if mg["cur"] is None else (",".join(f"{kk}:{tg.val(v)}" for kk, v in sorted(mg["cur"].items())) or "-")
+                    hs = "absent" if mg["hist"] is None else (",".join(f"{kk}:{'/'.join(tg.val(v) for v in l) if l else '-'}"
+                                                                       for kk, l in sorted(mg["hist"].items())) or "-")
+                    ns = "absent" if mg["ndim"] is None else str(mg["ndim"])
+                    lines.append(f"sm.load {ba} cur={cs} hist={hs} ndim={ns} exclude={','.join(mg['exclude']) if mg['exclude'] else '-'}")
+                    checks.append((key, f"merge:{mg['kind']}:{mg['exclude']}", tg, mg["result"]))
+                    c.count(f"merge_{mg['kind']}")
+                    if mg["kind"] == "exclude":
+                        c.count(f"exclude={'+'.join(mg['exclude'])} -> file keys {','.join(mg['keys'])}")
+    res = drv.batch(lines)
+    gen = dict(t.split("=", 1) for t in res[0].split(" ") if "=" in t)
+    if gen.get("smload") != "update_from_dict":
+        c.disagree(input="Gen.Checkpoint (StateManager.load_state)", impl=res[0][:300], model="smload=update_from_dict", kind="sm-roundtrip")
+    for (key, what, tg, real), line, ans in zip(checks, lines[1:], res[1:]):
+        m = parse_state(ans) if ans.startswith("cur=") else None
+        rc, rh = tg.cur(real["cur"]), tg.hist(real["hist"])
+        if m is None or m[0] != rc or m[1] != rh or m[2] != real["ndim"]:
+            c.disagree(input=dict(key, load=what), impl=dict(cur=rc, hist_len={kk: len(v) for kk, v in rh.items()}, ndim=real["ndim"]),
+                       model=ans[:300], kind="sm-roundtrip", **key)
+        c.sample({"case": dict(key, load=what), "model": ans[:140]})
+    return c
+
+
+def sm_loader(n_dim):
+    def load(final):
+        from tempest.state_manager import StateManager
+        f = StateManager(n_dim + 3)
+        f.load_state(final)
+        return dump_state(f)
+    return load
+
+
+def sm_crash_campaign(cfg, name, seed, with_old, stale_tmp, tier, rng, eager_modes=(True,), max_points=None, points=None):
+    """crash points of the REAL StateManager.save_state.  returns (abstract ops, write sizes, tmp basename, results)"""
+    from pathlib import Path
+    root = tempfile.mkdtemp(prefix="tv08_")
+    try:
+        with _quiet(), warnings.catch_warnings():
+            warnings.simplefilter("ignore")
+            s = _prepared(cfg, 2, seed, os.path.join(root, "w"))
+            sm = s.state
+            d = os.path.join(root, "sm")
+            os.mkdir(d)
+            final = os.path.join(d, name)
+            old_bytes = old_dump = None
+            if with_old:
+                sm.save_state(final)
+                old_bytes = open(final, "rb").read()
+                old_dump = dump_state(sm)
+                s.sample()
+            new_dump = dump_state(sm)
+            ref = os.path.join(root, "ref")
+            os.mkdir(ref)
+            ctl = Ctl(ref)
+            with fs_layer(ctl):
+                sm.save_state(os.path.join(ref, name))
+            ops = abstract_trace(ctl.log, os.path.join(ref, name))
+            sizes = [e[2] for e in ctl.log if e[0] == "write"]
+            renamed_with = next((e[3] for e in ctl.log if e[0] == "rename"), "nothing")
+            # the temporary name the code really uses: the first file it opens for writing
+            opened = next((e[1] for e in ctl.log if e[0] == "open"), os.path.join(os.path.realpath(ref), name))
+            shutil.rmtree(ref)
+        tmp = Path(d) / os.path.basename(opened)
+        pts = crash_points(sizes, tier, rng) if points is None else \
+            [tuple(q) if q[0] == "op" else ("byte", min(int(q[1]), sum(sizes) - 1)) for q in points]
+        if max_points:
+            pts = pts[:len(OP_POINTS)] + rng.sample(pts[len(OP_POINTS):], min(max_points, len(pts) - len(OP_POINTS)))
+        loader = sm_loader(new_dump["ndim"])
+        results = []
+        for eager in eager_modes:
+            for pt in pts:
+                _clear_dir(d)
+                if stale_tmp and str(tmp) != final:
+                    with open(tmp, "wb") as fh:
+                        fh.write(b"stale temporary file of an earlier, interrupted save")
+                if with_old:
+                    with open(final, "wb") as fh:
+                        fh.write(old_bytes)
+                code = crash_one(sm, final, pt, eager)
+                outcome, detail = classify_outcome(cfg, final, old_bytes, old_dump, new_dump, loader=loader)
+                results.append((pt, eager, code, outcome, detail))
+        return ops, sizes, tmp.name, renamed_with, results
+    finally:
+        shutil.rmtree(root, ignore_errors=True)
+
+
+def suite_sm_crash(tier, drv):
+    c = Corr("sm-crash-injection", "exact (content under the final name after a process crash in StateManager.save_state vs the model's "
+                                   "crash-content set of the extracted program)")
+    rng = common.rng_for("C08.sm-crash")
+    plan = [(SM_CFGS[0], "a.state", True, False), (SM_CFGS[0], "a.state", False, True), (SM_CFGS[2], "noext", True, True),
+            (SM_CFGS[3], "a.b.pkl", True, False), (SM_CFGS[1], ".hidden", False, False)] if tier == "quick" else \
+        [t for i, t in enumerate((cfg, nm, old, st) for cfg in SM_CFGS for nm in SM_NAMES[:4]
+                                 for old, st in ((True, True), (False, False), (True, False))) if i % 2 == 0]
+    # a final name that itself ends in ".temp" (written in place before /repo b1898a0, witness F27): judged like every other name
+    plan.append((SM_CFGS[0], "x.temp", True, False))
+    gen = dict(t.split("=", 1) for t in drv.batch(["fs.gen"])[0].split(" ") if "=" in t)
+    for cfg, name, with_old, stale in plan:
+        seed = rng.randrange(2 ** 31)
+        key = dict(cfg=cfg, name=name, seed=seed, old_checkpoint=with_old, stale_tmp=stale)
+        try:
+            ops, sizes, tmp_name, renamed_with, results = sm_crash_campaign(
+                cfg, name, seed, with_old, stale, tier, rng, eager_modes=(True, False) if (tier != "quick" or with_old) else (True,))
+        except Exception as e:  # noqa
+            c.case(key, True)
+            c.disagree(input=key, impl=f"StateManager.save_state raised {type(e).__name__}: {e}", model="save succeeds", kind="sm-roundtrip",
+                       cfg=cfg, k=2, seed=seed, name=name, rng_seed=0)
+            continue
+        pa = pname_args(name)
+        ans = drv.batch(["fs.classify ops=" + ";".join(ops) + " final=final", "fs.shape ops=" + ";".join(ops), f"fs.smtmp {pa}",
+                         f"fs.smcrash {pa} old={'1,1,1' if with_old else 'none'} tmpold={'9,9' if stale else 'none'} payload=2,2,2,2"])
+        cls, shape, tmp_ans, crashset = ans
+        mt = dict(t.split("=", 1) for t in tmp_ans.split(" ") if "=" in t)
+        if mt.get("tmp") != "d/" + tmp_name:
+            c.disagree(input=key, impl=f"Path({name!r}).with_suffix('.temp').name = {tmp_name!r}", model=tmp_ans, kind="sm-protocol", **key)
+        if cls != "temprename" or shape != gen.get("smshape"):
+            c.disagree(input=key, impl=f"{shape} (classified {cls})", model=f"static shape {gen.get('smshape')} (temprename)", kind="sm-protocol", **key)
+        allowed = set()
+        for item in crashset.split("|"):
+            allowed.add({"absent": "absent", "1,1,1": "old", "2,2,2,2": "new"}.get(item, "broken"))
+        c.count(f"protocol={cls}")
+        c.count("renamed_with_" + renamed_with)
+        for pt, eager, code, outcome, detail in results:
+            ck = dict(key, crash_point=list(pt), eager_flush=eager)
+            c.case(ck, pt[0] == "byte" or pt[1] in ("rename", "done", "close"))
+            c.count(f"outcome={outcome}")
+            if code != 9:
+                c.disagree(input=ck, impl=f"child exit code {code} (3 = save raised, 0 = crash point never reached)", model="dies at the crash point",
+                           kind="sm-crash", **key, point=list(pt), eager=eager)
+                continue
+            bad = outcome not in allowed or outcome == "broken" or (pt == ("op", "done") and outcome != "new")
+            if bad:
+                c.disagree(input=ck, impl=f"{outcome}: {detail}", model=f"crash contents {crashset}", kind="sm-crash", **key, point=list(pt), eager=eager)
+        c.sample({"config": key, "write_sizes": sizes, "tmp": tmp_name, "model_crash_contents": crashset,
+                  "observed": sorted({o for _, _, _, o, _ in results})})
+    return c
+
+
 def correspond(tier):
     drv = common.Driver()
     out = []
-    for f in (suite_roundtrip, suite_runs, suite_protocol, suite_crash):
+    for f in (suite_roundtrip, suite_runs, suite_protocol, suite_crash, suite_sm_roundtrip, suite_sm_crash):
         try:
             out.append(f(tier, drv))
         except common.LeanError:
@@ -1063,14 +1419,38 @@ def search(tier, hints):
             elif h.get("kind") == "crash" and "point" in h:
                 r = oracle_crash_point(h["cfg"], h["seed"], h["old_checkpoint"], tuple(h["point"]), h["eager"])
                 add("crash", r, cfg=h["cfg"], seed=h["seed"], old_checkpoint=h["old_checkpoint"])
+            elif h.get("kind") == "sm-roundtrip" and "name" in h:
+                add("sm-roundtrip", oracle_sm_roundtrip(h["cfg"], h["k"], h["seed"], h["name"], h.get("rng_seed", 0)),
+                    cfg=h["cfg"], k=h["k"], seed=h["seed"], name=h["name"], rng_seed=h.get("rng_seed", 0))
+            elif h.get("kind") == "sm-crash" and "point" in h:
+                r = oracle_sm_crash(h["cfg"], h["name"], h["seed"], h["old_checkpoint"], h["stale_tmp"], "quick", rng,
+                                    only=(tuple(h["point"]), h["eager"]))
+                add("sm-crash", r, cfg=h["cfg"], name=h["name"], seed=h["seed"], old_checkpoint=h["old_checkpoint"], stale_tmp=h["stale_tmp"])
         except Exception as e:  # noqa
             add("crashed-oracle", f"oracle raised {type(e).__name__}: {e}", hint=str(h)[:200])
         if len(found) >= 3:
             return found
     # 2. generated: crash injection first when the protocol is in doubt, otherwise round trips, runs, crashes
     order = ["crash", "roundtrip", "run"] if ("protocol" in kinds or "crash" in kinds or not kinds) else ["roundtrip", "run", "crash"]
+    sm_first = any(k_ and k_.startswith("sm-") for k_ in kinds)
+    order = (["sm-crash", "sm-roundtrip"] + order) if sm_first else (order + ["sm-crash", "sm-roundtrip"])
     for what in order:
-        if what == "crash":
+        if what == "sm-crash":
+            for cfg, name, with_old, stale in [(SM_CFGS[0], "a.state", True, False), (SM_CFGS[0], "x.temp", True, False),
+                                               (SM_CFGS[2], "noext", False, True)] + \
+                    ([(SM_CFGS[3], "a.b.pkl", True, True)] if tier != "quick" else []):
+                seed = rng.randrange(2 ** 31)
+                add("sm-crash", oracle_sm_crash(cfg, name, seed, with_old, stale, tier, rng, max_points=(40 if tier == "quick" else None)),
+                    cfg=cfg, name=name, seed=seed, old_checkpoint=with_old, stale_tmp=stale)
+                if found:
+                    return found
+        elif what == "sm-roundtrip":
+            for cfg in SM_CFGS:
+                for k in (0, 1, 3):
+                    seed, name, rs = rng.randrange(2 ** 31), rng.choice(SM_NAMES), rng.randrange(2 ** 31)
+                    if add("sm-roundtrip", oracle_sm_roundtrip(cfg, k, seed, name, rs), cfg=cfg, k=k, seed=seed, name=name, rng_seed=rs):
+                        return found
+        elif what == "crash":
             for cfg, with_old in [(CONFIGS[0], True), (CONFIGS[5], False)] + ([(CONFIGS[10], True), (CONFIGS[15], True)] if tier != "quick" else []):
                 seed = rng.randrange(2 ** 31)
                 add("crash", oracle_crash(cfg, seed, with_old, tier, rng, max_points=(40 if tier == "quick" else None)),
@@ -1090,6 +1470,45 @@ def search(tier, hints):
                 if add("run", oracle_run(cfg, k, k2, seed, 96), cfg=cfg, save_every=k, resume_save_every=k2, seed=seed, n_total=96):
                     return found
     return found
+
+
+def oracle_sm_roundtrip(cfg, k, seed, name, rng_seed):
+    return judge_sm_roundtrip(sm_roundtrip_case(cfg, k, seed, name, rng_seed), name)
+
+
+def oracle_sm_crash(cfg, name, seed, with_old, stale, tier, rng, eager_modes=(True, False), max_points=None, only=None):
+    """crash injection on the real StateManager.save_state (any final name)"""
+    ops, sizes, tmp_name, _, results = sm_crash_campaign(cfg, name, seed, with_old, stale, tier, rng, eager_modes, max_points)
+    for pt, eager, code, outcome, detail in results:
+        if only is not None and (pt, eager) != only:
+            continue
+        if code == 3:
+            return dict(what="StateManager.save_state raised in the child before reaching the crash point", point=list(pt), eager=eager)
+        ok = outcome in (("old",) if with_old else ("absent",)) + ("new",)
+        if (pt == ("op", "done") or code == 0) and outcome != "new":
+            ok = False
+        if not ok:
+            where = f"byte offset {pt[1]} of {sum(sizes)} (writes of sizes {sizes[:6]})" if pt[0] == "byte" \
+                else f"the instant before `{pt[1]}`" if pt[1] != "done" else "the instant after the rename"
+            return dict(what=f"process killed at {where} during StateManager.save_state({name!r}) ({'with' if with_old else 'without'} an "
+                             f"existing complete file{', stale ' + tmp_name + ' present' if stale else ''}): {outcome}: {detail or 'unexpected content'}",
+                        point=list(pt), eager=eager, ops=";".join(ops)[:200])
+    return None
+
+
+def sm_temp_suffix_finding():
+    """witness F27 (harness/witnesses.py): StateManager.save_state('x.temp') over a complete file, the process killed right after
+    the open and in the middle of the pickle.  Before /repo b1898a0 the temporary name `with_suffix(".temp")` WAS the final
+    name, the save wrote in place and the survivor found a truncated file; `fails` = that happens."""
+    import random
+    ops, sizes, tmp_name, _, results = sm_crash_campaign(SM_CFGS[0], "x.temp", 11, True, False, "quick", random.Random(0), (True,),
+                                                         points=[("op", "opened"), ("byte", 3000), ("byte", 10 ** 9)])
+    bad = [(pt, outcome, detail) for pt, eager, code, outcome, detail in results if outcome not in ("old", "new")]
+    seen = ", ".join(f"{list(pt)} -> {outcome}" for pt, eager, code, outcome, detail in results)
+    if bad:
+        return {"fails": True, "detail": f"StateManager.save_state('x.temp') over a complete file (temporary file {tmp_name!r}), process killed at "
+                                         f"{list(bad[0][0])}: {bad[0][2]}"}
+    return {"fails": False, "detail": f"StateManager.save_state('x.temp') over a complete file (temporary file {tmp_name!r}): {seen}"}
 
 
 def oracle_crash_point(cfg, seed, with_old, point, eager):
@@ -1132,6 +1551,11 @@ def replay(obj):
         msg = oracle_run(f["cfg"], f["save_every"], f["resume_save_every"], f["seed"], f["n_total"], n_total_resume=f.get("n_total_resume"))
     elif kind == "crash":
         msg = oracle_crash_point(f["cfg"], f["seed"], f["old_checkpoint"], tuple(f["point"]), f["eager"])
+    elif kind == "sm-roundtrip":
+        msg = oracle_sm_roundtrip(f["cfg"], f["k"], f["seed"], f["name"], f.get("rng_seed", 0))
+    elif kind == "sm-crash":
+        msg = oracle_sm_crash(f["cfg"], f["name"], f["seed"], f["old_checkpoint"], f["stale_tmp"], "quick", common.rng_for("C08.replay"),
+                              only=(tuple(f["point"]), f["eager"]) if "point" in f else None)
     else:
         found = search("quick", [])
         msg = found[0] if found else None
